@@ -146,12 +146,19 @@ func (u *PsipURI) Truncate() {
 func (u *PsipURI) AdjustOffs(newpos PField) bool {
 	offs := newpos.Offs // new start
 	end := offs + newpos.Len
-	if (u.Scheme.Len + u.User.Len + u.Pass.Len + u.Host.Len + u.Port.Len +
-		u.Params.Len + u.Headers.Len) > newpos.Len {
+	// the new location must be able to hold the whole uri: all the
+	// components, including the delimiters between them
+	// (check before changing anything)
+	need := u.Scheme.Len
+	for _, f := range [...]*PField{&u.User, &u.Pass, &u.Host, &u.Port,
+		&u.Params, &u.Headers} {
+		if f.Offs != 0 && (f.Offs-u.Scheme.Offs+f.Len) > need {
+			need = f.Offs - u.Scheme.Offs + f.Len
+		}
+	}
+	if need > newpos.Len {
 		if DBGon() {
-			DBG("AdjustOffs: %d > %d\n",
-				u.Scheme.Len+u.User.Len+u.Pass.Len+u.Host.Len+u.Port.Len+
-					u.Params.Len+u.Headers.Len, newpos.Len)
+			DBG("AdjustOffs: %d > %d\n", need, newpos.Len)
 		}
 		return false
 	}
